@@ -340,6 +340,32 @@ static void build_value(rng &r, json::value &v, int depth)
 	default: { v = json::object(); int n = r.below(5); for (int i = 0; i < n; i++) { json::value e; build_value(r, e, depth + 1); v.object()[rand_ustring(r, 5)] = e; } }
 	}
 }
+// "all json::value trees built through the API": a value replaced by one of its own parts (v.object(v["result"].object()) and the
+// like) - the setters take references, which then point into the content they replace
+static void replace_by_own_part(rng &r, json::value &root)
+{
+	json::value *v = &root;
+	for (int hop = r.below(3); hop > 0; hop--) {
+		if (v->type() == json::is_array && !v->array().empty()) v = &v->array()[r.below((uint32_t)v->array().size())];
+		else if (v->type() == json::is_object && !v->object().empty()) { json::object::iterator it = v->object().begin(); std::advance(it, r.below((uint32_t)v->object().size())); v = &it->second; }
+	}
+	json::value *part = 0;
+	if (v->type() == json::is_array && !v->array().empty()) part = &v->array()[r.below((uint32_t)v->array().size())];
+	else if (v->type() == json::is_object && !v->object().empty()) { json::object::iterator it = v->object().begin(); std::advance(it, r.below((uint32_t)v->object().size())); part = &it->second; }
+	if (!part) return;
+	json::value expect = *part;
+	int how = r.below(3);
+	switch (part->type()) {
+	case json::is_object: if (how == 0) v->object(part->object()); else if (how == 1) v->set_value(part->object()); else *v = *part; break;
+	case json::is_array: if (how == 0) v->array(part->array()); else if (how == 1) v->set_value(part->array()); else *v = *part; break;
+	case json::is_string: if (how == 0) v->str(part->str()); else if (how == 1) v->set_value(part->str()); else *v = *part; break;
+	case json::is_number: if (how == 0) v->number(part->number()); else *v = *part; break;
+	default: *v = *part;
+	}
+	O().count("values_replaced_by_own_part");
+	O().seen("own_part_shapes", mix(expect.type(), how));
+	if (!(*v == expect)) O().viol("json:value-replaced-by-own-part-differs", "expected " + expect.save().substr(0, 200) + " got " + (v->is_undefined() ? std::string("undefined") : v->save().substr(0, 200)));
+}
 static std::vector<std::locale> &locales()
 {
 	static std::vector<std::locale> l;
@@ -357,6 +383,7 @@ static void check_writer(rng &r, long long idx)
 {
 	json::value v;
 	build_value(r, v, 0);
+	if (r.chance(1, 3)) replace_by_own_part(r, v);
 	if (g_odd) {
 		json::value inner = v, odd;
 		switch (r.below(5)) { case 0: odd = std::numeric_limits<double>::quiet_NaN(); break; case 1: odd = std::numeric_limits<double>::infinity(); break; case 2: odd = -std::numeric_limits<double>::infinity(); break; case 3: odd = std::string("\xff"); break; default: odd = std::string("ok\xc3"); }
